@@ -12,6 +12,8 @@ import (
 	"github.com/skx/evalfilter/v2/object"
 	"os"
 	"path/filepath"
+	"reflect"
+	"regexp"
 	"sort"
 	"strings"
 	"sync"
@@ -134,7 +136,14 @@ type Case struct {
 	// HashOrder: the expression contains a hash literal with several pairs.
 	HashOrder bool   `json:"hash_order,omitempty"`
 	Exp       Expect `json:"expect"`
-	Msg       string `json:"message,omitempty"`
+	// History: what the evaluator did before the judged run (see historyFor):
+	// "" = not decided yet, "none", "same-address" (a run on the same map or
+	// pointer holding other contents, changed in place afterwards),
+	// "wider-object-first" (a run on an object that has a field for every name
+	// in the script), "nil-first" (a run without an object), "twice" (the same
+	// run, twice).
+	History string `json:"history,omitempty"`
+	Msg     string `json:"message,omitempty"`
 }
 
 func (c *Case) fix() {
@@ -279,6 +288,9 @@ func runCase(c *Case) error {
 	var obj interface{}
 	if c.Obj != nil {
 		obj = c.Obj.Build()
+		if len(c.Obj.Fields) == 0 && evid.Digest("noobject"+c.Script)%2 == 0 {
+			obj = nil // a script that reads no field is as well run without an object
+		}
 	}
 	if j := os.Getenv("VERIF_DEBUG_JOURNAL"); j != "" {
 		_ = os.WriteFile(j, []byte(c.Script+"\n"+fmt.Sprint(c.Vars, c.Obj, c.Exp.Why)), 0o644)
@@ -302,7 +314,17 @@ func runCase(c *Case) error {
 		// the engine has a 20 s deadline of its own; a call that has not come
 		// back long after that is stuck inside a single operation
 		done := make(chan eng.Result, 1)
-		go func() { done <- eng.Quick(c.Script, obj, c.Vars, c.NoOpt) }()
+		historyFor(c)
+		if evid.Current != nil {
+			evid.Current.Class("history-before-judged-run:" + c.History)
+		}
+		go func() {
+			if c.History == "none" {
+				done <- eng.Quick(c.Script, obj, c.Vars, c.NoOpt)
+				return
+			}
+			done <- eng.QuickAfter(c.Script, obj, c.Vars, c.NoOpt, func(r *eng.Runner) { playHistory(r, c.History, c.Script, obj) })
+		}()
 		var res eng.Result
 		select {
 		case res = <-done:
@@ -336,6 +358,11 @@ func runCase(c *Case) error {
 	if perr != nil {
 		return checkResult(eng.Result{PrepareErr: perr}, c.Exp)
 	}
+	historyFor(c)
+	if evid.Current != nil {
+		evid.Current.Class("history-before-judged-run:" + c.History)
+	}
+	playHistory(r, c.History, c.Script, obj)
 	if !c.UseRun {
 		res := r.Execute(obj)
 		if err := checkResult(res, c.Exp); err != nil {
@@ -579,4 +606,81 @@ func lexSrcToks(src string) []string {
 		out = append(out, tokenText(tk))
 	}
 	return out
+}
+
+// ---- a history before the judged run ----
+
+// historyFor decides (from the case itself, so that replays agree) what the
+// evaluator of a single-run case has been through before the judged run. The
+// scripts of these cases are idempotent (assignments from literals, then one
+// expression), so whatever an earlier run did - on the same map or pointer
+// with other contents, on a wider object, without an object, failing or not -
+// the judged run must give what a first run gives: "each run sees the object
+// passed to that run" and "no hidden state between runs" hold for every
+// script, also for the one-line scripts of the table checks.
+func historyFor(c *Case) {
+	if c.History != "" {
+		return
+	}
+	c.History = "none"
+	if c.Exp.CheckGlobals || c.Kind == "stepped" || strings.Contains(c.Script, "++") || strings.Contains(c.Script, "--") {
+		return // not idempotent, or the variables left behind are compared
+	}
+	switch evid.Digest("history"+c.Script) % 8 {
+	case 0:
+		c.History = "same-address"
+	case 1:
+		c.History = "wider-object-first"
+	case 2:
+		c.History = "nil-first"
+	case 3:
+		c.History = "twice"
+	}
+}
+
+var identRe = regexp.MustCompile(`[A-Za-z_][A-Za-z0-9_]*`)
+
+func playHistory(r *eng.Runner, history, script string, obj interface{}) {
+	quiet := func(o interface{}) {
+		defer func() { _ = recover() }()
+		_, _ = r.E.Execute(o)
+	}
+	switch history {
+	case "twice":
+		quiet(obj)
+	case "nil-first":
+		quiet(nil)
+	case "wider-object-first":
+		wide := map[string]interface{}{}
+		for _, w := range identRe.FindAllString(script, -1) {
+			wide[w] = 4242
+		}
+		quiet(wide)
+	case "same-address":
+		switch o := obj.(type) {
+		case map[string]interface{}:
+			saved := map[string]interface{}{}
+			for k, v := range o {
+				saved[k] = v
+				o[k] = "decoy"
+			}
+			o["Extra"] = 4242
+			quiet(o)
+			delete(o, "Extra")
+			for k, v := range saved {
+				o[k] = v
+			}
+		default:
+			rv := reflect.ValueOf(obj)
+			if rv.Kind() == reflect.Ptr && !rv.IsNil() && rv.Elem().Kind() == reflect.Struct && rv.Elem().CanSet() {
+				saved := reflect.New(rv.Elem().Type()).Elem()
+				saved.Set(rv.Elem())
+				rv.Elem().Set(reflect.Zero(rv.Elem().Type()))
+				quiet(obj)
+				rv.Elem().Set(saved)
+			} else {
+				quiet(obj)
+			}
+		}
+	}
 }
